@@ -124,6 +124,8 @@ static int kind_of(const char *k)
   abort();
 }
 
+static int eol = '\n';
+
 static void do_get(econf_file *kf, int kd, const char *g, const char *k, const char *def)
 {
   int has_def = def[0] != '-';
@@ -135,29 +137,74 @@ static void do_get(econf_file *kf, int kd, const char *g, const char *k, const c
     else e = econf_getStringValue(kf, g, k, &v);
     printf("rc=%d", e);
     if (e == ECONF_SUCCESS || (has_def && e == ECONF_NOKEY)) { printf(" v="); enc(v); free(v); }
-    putchar('\n'); break; }
+    putchar(eol); break; }
   case 1: { int32_t v = 0;
     e = has_def ? econf_getIntValueDef(kf, g, k, &v, (int32_t) strtoll(def + 2, NULL, 10)) : econf_getIntValue(kf, g, k, &v);
-    printf("rc=%d", e); if (e == 0 || (has_def && e == ECONF_NOKEY)) printf(" z=%" PRId32, v); putchar('\n'); break; }
+    printf("rc=%d", e); if (e == 0 || (has_def && e == ECONF_NOKEY)) printf(" z=%" PRId32, v); putchar(eol); break; }
   case 2: { int64_t v = 0;
     e = has_def ? econf_getInt64ValueDef(kf, g, k, &v, (int64_t) strtoll(def + 2, NULL, 10)) : econf_getInt64Value(kf, g, k, &v);
-    printf("rc=%d", e); if (e == 0 || (has_def && e == ECONF_NOKEY)) printf(" z=%" PRId64, v); putchar('\n'); break; }
+    printf("rc=%d", e); if (e == 0 || (has_def && e == ECONF_NOKEY)) printf(" z=%" PRId64, v); putchar(eol); break; }
   case 3: { uint32_t v = 0;
     e = has_def ? econf_getUIntValueDef(kf, g, k, &v, (uint32_t) strtoull(def + 2, NULL, 10)) : econf_getUIntValue(kf, g, k, &v);
-    printf("rc=%d", e); if (e == 0 || (has_def && e == ECONF_NOKEY)) printf(" z=%" PRIu32, v); putchar('\n'); break; }
+    printf("rc=%d", e); if (e == 0 || (has_def && e == ECONF_NOKEY)) printf(" z=%" PRIu32, v); putchar(eol); break; }
   case 4: { uint64_t v = 0;
     e = has_def ? econf_getUInt64ValueDef(kf, g, k, &v, (uint64_t) strtoull(def + 2, NULL, 10)) : econf_getUInt64Value(kf, g, k, &v);
-    printf("rc=%d", e); if (e == 0 || (has_def && e == ECONF_NOKEY)) printf(" z=%" PRIu64, v); putchar('\n'); break; }
+    printf("rc=%d", e); if (e == 0 || (has_def && e == ECONF_NOKEY)) printf(" z=%" PRIu64, v); putchar(eol); break; }
   case 5: { bool v = false;
     e = has_def ? econf_getBoolValueDef(kf, g, k, &v, def[2] == '1') : econf_getBoolValue(kf, g, k, &v);
-    printf("rc=%d", e); if (e == 0 || (has_def && e == ECONF_NOKEY)) printf(" b=%d", v ? 1 : 0); putchar('\n'); break; }
+    printf("rc=%d", e); if (e == 0 || (has_def && e == ECONF_NOKEY)) printf(" b=%d", v ? 1 : 0); putchar(eol); break; }
   case 6: { float v = 0; uint32_t bits;
     e = econf_getFloatValue(kf, g, k, &v); memcpy(&bits, &v, 4);
-    printf("rc=%d", e); if (e == 0) printf(" bits=%" PRIu32, bits); putchar('\n'); break; }
+    printf("rc=%d", e); if (e == 0) printf(" bits=%" PRIu32, bits); putchar(eol); break; }
   case 7: { double v = 0; uint64_t bits;
     e = econf_getDoubleValue(kf, g, k, &v); memcpy(&bits, &v, 8);
-    printf("rc=%d", e); if (e == 0) printf(" bits=%" PRIu64, bits); putchar('\n'); break; }
+    printf("rc=%d", e); if (e == 0) printf(" bits=%" PRIu64, bits); putchar(eol); break; }
   }
+}
+
+static void do_ext(econf_file *kf, const char *g, const char *k)
+{
+  econf_ext_value *x = NULL;
+  econf_err e = econf_getExtValue(kf, g, k, &x);
+  printf("rc=%d", e);
+  if (e == ECONF_SUCCESS) {
+    size_t nv = 0; while (x->values[nv]) nv++;
+    printf(" vals="); enc_list(x->values, nv);
+    printf(" file="); enc_path(x->file);
+    printf(" line=%" PRIu64 " cbk=", x->line_number); enc(x->comment_before_key);
+    printf(" cav="); enc(x->comment_after_value);
+    econf_freeExtValue(x);
+  }
+  putchar(eol);
+}
+
+/* every listing and every getter on every listed key */
+static void getall(econf_file *kf)
+{
+  char **groups = NULL; size_t ng = 0;
+  if (!kf) { printf("noobj\n"); return; }
+  printf("all ");
+  eol = ';';
+  econf_err e = econf_getGroups(kf, &ng, &groups);
+  printf("rc=%d", e);
+  if (e == ECONF_SUCCESS) { printf(" l="); enc_list(groups, ng); } else ng = 0;
+  putchar(';');
+  for (size_t g = 0; g <= ng; g++) {
+    const char *grp = g == 0 ? NULL : groups[g - 1];
+    char **keys = NULL; size_t nk = 0;
+    e = econf_getKeys(kf, grp, &nk, &keys);
+    printf("rc=%d", e);
+    if (e != ECONF_SUCCESS) { putchar(';'); continue; }
+    printf(" l="); enc_list(keys, nk); putchar(';');
+    for (size_t k = 0; k < nk; k++) {
+      for (int kd = 0; kd < 8; kd++) do_get(kf, kd, grp, keys[k], "-");
+      do_ext(kf, grp, keys[k]);
+    }
+    econf_free(keys);
+  }
+  if (groups) econf_free(groups);
+  eol = '\n';
+  putchar('\n');
 }
 
 static void do_set(econf_file *kf, int kd, const char *g, const char *k, const char *text, const char *z)
@@ -209,7 +256,8 @@ static void do_parse(int o, char **t)
   }
   char *fn = NULL; uint64_t ln = 0;
   econf_errLocation(&fn, &ln);
-  printf("rc=%d line=%" PRIu64 "\n", e, ln);
+  if (e == ECONF_SUCCESS) printf("rc=0\n");
+  else printf("rc=%d line=%" PRIu64 "\n", e, ln);
   free(fn);
   if (e != ECONF_SUCCESS && objs[o]) { printf("driver-error object returned with error\n"); exit(3); }
   free(path); free(content); free(dl); free(cm); free(real);
@@ -258,18 +306,8 @@ int main(int argc, char **argv)
       free(g); free(k);
     } else if (!strcmp(c, "ext")) {
       char *g = dec(t[2]), *k = dec(t[3]);
-      econf_ext_value *x = NULL;
-      econf_err e = econf_getExtValue(obj(t[1]), g, k, &x);
-      printf("rc=%d", e);
-      if (e == ECONF_SUCCESS) {
-        size_t nv = 0; while (x->values[nv]) nv++;
-        printf(" vals="); enc_list(x->values, nv);
-        printf(" file="); enc_path(x->file);
-        printf(" line=%" PRIu64 " cbk=", x->line_number); enc(x->comment_before_key);
-        printf(" cav="); enc(x->comment_after_value);
-        econf_freeExtValue(x);
-      }
-      putchar('\n'); free(g); free(k);
+      do_ext(obj(t[1]), g, k);
+      free(g); free(k);
     } else if (!strcmp(c, "groups")) {
       char **l = NULL; size_t len = 0;
       econf_err e = econf_getGroups(obj(t[1]), &len, &l);
@@ -302,6 +340,8 @@ int main(int argc, char **argv)
       putchar('\n'); free(dir);
     } else if (!strcmp(c, "dump")) {
       dump(obj(t[1]));
+    } else if (!strcmp(c, "getall")) {
+      getall(obj(t[1]));
     } else if (!strcmp(c, "path")) {
       econf_file *kf = obj(t[1]);
       if (!kf) printf("noobj\n");
